@@ -51,6 +51,11 @@ func runC14(c *CaseCtx) {
 		class = "concurrent-with-sparse"
 	}
 	cc := concCfg{DBs: cfgs, Goroutines: gs, TxPerG: tier(c.Tier, 300, 600) / gs * 2, Shards: 1 + r.Intn(3), YieldP: []float64{0, 0.05, 0.3}[r.Intn(3)], Class: class}
+	if sparse {
+		// a sparse-mode read opens (and maps) a data file per key it touches: under the race detector such a
+		// case costs 5-10x a RAM-mode one, so it gets a third of the transactions instead of a longer deadline
+		cc.TxPerG = (cc.TxPerG + 2) / 3
+	}
 	c.Log("goroutines=%d dbs=%v shards=%d yield=%.2f", gs, cfgs, cc.Shards, cc.YieldP)
 	res := runConc(c, cc)
 	concReport(c, res, class)
@@ -292,9 +297,10 @@ func runC18(c *CaseCtx) {
 func init() {
 	register(&Check{
 		ID: "C14", Level: "exploration",
-		NCases: func(t string) int { return tier(t, 64, 3000) },
-		Run:    runC14,
-		Workers: 8,
+		NCases:       func(t string) int { return tier(t, 64, 3000) },
+		Run:          runC14,
+		Workers:      8,
+		CaseDeadline: 8 * time.Minute, // wall-clock watchdog only: its firing is inconclusive unless the dump shows a lock deadlock
 		Rule: "case = one concurrent execution under the Go race detector: 2-16 goroutines run 300-600 mixed View/Update transactions against 1-3 databases open at once in the process (all index modes; lists/sets/sorted sets in KeyVal), schedules perturbed by yields/sleeps injected at the verif hook points (before the lock, between fn and Commit, at file writes/syncs inside Commit) with probability 0, 0.05 or 0.3; " +
 			"every transaction is recorded at the client boundary (call time, every value read/popped, return time) and the history is checked for strict serializability with porcupine (transaction = one operation, partitioned per database and shard, unique written values); further oracles: a read-only transaction reads everything twice and must see one state, an in-database sequence key must show no lost update and an order consistent with real time, no panic, no stuck lock (structural stuck detector), no race-detector report with a nutsdb frame; " +
 			"non-trivial = >=1 pair of overlapping transactions and >=50 transactions; distinct by workload parameters hash",
@@ -309,8 +315,8 @@ func init() {
 	})
 	register(&Check{
 		ID: "C17", Level: "exploration",
-		NCases: func(t string) int { return tier(t, 48, 2000) },
-		Run:    runC17,
+		NCases:  func(t string) int { return tier(t, 48, 2000) },
+		Run:     runC17,
 		Workers: 8,
 		Rule: "case = as C14 (race detector + recorded history + porcupine) on one RAM-mode database with small segments while 1-2 extra goroutines call Merge in a loop; KV and sets only (for which a sequential Merge preserves contents, so that a discrepancy is attributable to concurrency); Merge is not an operation of the model - it must be invisible; " +
 			"non-trivial = at least one successful Merge overlapped the workload",
@@ -325,8 +331,8 @@ func init() {
 	})
 	register(&Check{
 		ID: "C18", Level: "exploration",
-		NCases: func(t string) int { return tier(t, 96, 3000) },
-		Run:    runC18,
+		NCases:  func(t string) int { return tier(t, 96, 3000) },
+		Run:     runC18,
 		Workers: 8,
 		Rule: "case = 0-8 writer goroutines execute a pre-generated script indexed by an in-database sequence key (so the state after n commits is the deterministic S(n)) while Backup(dir) is called 1-3 times into fresh directories, under the race detector, in all index modes and RWModes; " +
 			"oracle: the backup opens with the same options, its own sequence value n lies between the number of commits that had returned when Backup was called and the number that had started when it returned, and its full observation equals S(n); non-trivial = >=5 commits; distinct by script hash",
